@@ -3,6 +3,7 @@ mod checks_c03;
 mod checks_c04;
 mod checks_c05;
 mod checks_c06;
+mod checks_c09;
 mod checks_c12;
 mod checks_c17;
 mod checks_c19;
@@ -71,6 +72,11 @@ fn engine_shard(id: &str, tier: &str, seed: u64, replay: Option<&serde_json::Val
         if (id == "C18" || id == "C10") && out.found.is_empty() && replay.map(|r| r["replay"]["origin"] == "e2").unwrap_or(true) {
             let e2 = checks_c03::shard_run(id, tier, seed, replay, shard);
             out.merge(e2);
+        }
+        if id == "C09" && replay.is_none() && out.found.is_empty() {
+            // concurrent part: clients acting at the same time vs. each alone
+            let c = checks_c09::shard_run(tier, seed, shard);
+            out.merge(c);
         }
         if id == "C01" && replay.is_none() && out.found.is_empty() && shard.k == 5 % shard.n {
             if let Some(f) = checks_e1::bulk_chain(if tier == "thorough" { 70_000 } else { 10_500 }, seed, &mut out.cov) {
